@@ -17,7 +17,7 @@ def run(ctx):
     items = []
     for k, e in enumerate(pl["extracts"]):
         via_cli = (k % 2 == 1)
-        items.append(("art-extract", dict(depth=e["depth"], batch=e["batch"], cli=cli if via_cli else "", dir=ctx.scratch,
+        items.append(("art-extract", dict(depth=e["depth"], batch=e["batch"], cli=cli if via_cli else "", dir=ctx.scratch, prev=os.path.join(REPO, "formal-verification", "FormalVerification.lean"),
                                           keep=keep if (e["depth"], e["batch"], via_cli) == (30, 4, False) or (e["depth"], e["batch"]) == (30, 4) and not os.path.exists(keep) else ""), e["procs"]))
     recs = artlib.execute(ctx, items, nproc=8)
     com = ctx.run_vh(["art-committed"], dict(repo=REPO))
